@@ -44,3 +44,16 @@ fn auto_num_threads(
             .min(available_threads.into()),
     }
 }
+
+#[cfg(feature = "verif-hooks")]
+pub fn verif_calc_num_threads(
+    input_len: Option<usize>,
+    avail: usize,
+    num_threads: NumThreads,
+) -> usize {
+    let available_threads = NonZeroUsize::new(avail).ok_or(std::io::Error::other("no parallelism"));
+    match num_threads {
+        NumThreads::Auto => auto_num_threads(input_len, available_threads),
+        NumThreads::Max(x) => set_num_threads(input_len, available_threads, x.into()),
+    }
+}
